@@ -112,7 +112,7 @@ def gen_filters(rng, spec):
     return [[gen_filter1(rng, spec) for _ in range(rng.choice([1, 2]))] for _ in range(2)]
 
 
-KINDS = ["to_pandas"] * 4 + ["slice"] * 2 + ["index", "slice_only", "iter", "head", "statistics", "count", "columns", "pickle"]
+KINDS = ["to_pandas"] * 4 + ["slice"] * 2 + ["index", "slice_only", "slice_stats", "iter", "head", "statistics", "count", "columns", "pickle"]
 
 
 def gen_op(rng, spec, kind=None):
@@ -129,7 +129,7 @@ def gen_op(rng, spec, kind=None):
             op["categories"] = rng.choice([["c"], {"c": 3}, []])
         if rng.random() < 0.15:
             op["index"] = False
-    if kind in ("slice", "slice_only"):
+    if kind in ("slice", "slice_only", "slice_stats"):
         op["i"] = rng.choice([None, 0, 1, -1, rng.randrange(-nrg, nrg + 1)])
         op["j"] = rng.choice([None, 1, 2, -1, rng.randrange(-nrg, nrg + 1)])
         op["step"] = rng.choice([None, None, 1, 2, -1])
@@ -173,13 +173,11 @@ class Solo:
     def __call__(self, op):
         k = okey(op)
         if k not in self.cache:
-            try:
-                self.cache[k] = with_alarm(60, conc.solo_result, self.path, op)
-            except TimeoutError as e:
-                self.cache[k] = ["EXC", "TimeoutError", str(e)]
-                if self.ctx is not None:
+            self.cache[k] = conc.solo_pristine(self.path, op, 60)
+            if self.cache[k][:2] == ["EXC", "TimeoutError"] if isinstance(self.cache[k], list) else False:
+                if "did not return within" in str(self.cache[k][2]) and self.ctx is not None:
                     self.ctx.fail({"component": "shared-handle", "op": op["op"], "symptom": "hang", "mode": "alone"},
-                                  {"mode": "sequence", "dataset": self.spec, "ops": [op]}, "%s does not return even when run alone: %s" % (k, e))
+                                  {"mode": "sequence", "dataset": self.spec, "ops": [op]}, "%s does not return even when run alone: %s" % (k, self.cache[k][2]))
                     raise Hung("%s alone" % k)
         return self.cache[k]
 
@@ -249,9 +247,9 @@ def run(ctx):
     jt = 420 if quick else 2400
     # ---- datasets -----------------------------------------------------------------------------
     specs = []
-    for kind in (["single", "hive"] if quick else ["single", "hive", "multi", "single"]):
+    for kind in (["single", "hive"] if quick else ["single", "hive", "multi"]):
         specs.append(gen_dataset(rng, kind, small=True))
-    names = [FOREIGN[(ctx.seed + j) % len(FOREIGN)] for j in range(1)] if quick else FOREIGN
+    names = [FOREIGN[(ctx.seed + j) % len(FOREIGN)] for j in range(1 if quick else 5)]
     if not os.path.isdir(os.path.join(C.REPO, "test-data")):
         ctx.notes.append("no test-data directory under VERIF_REPO: foreign files skipped")
         names = []
@@ -271,12 +269,12 @@ def run(ctx):
     base["broken"] = False
     jobs = [dict(base, phase="corpus"), dict(base, phase="tree_model"), dict(base, phase="part_writers"),
             dict(base, phase="multi_switch", datasets=datasets)]
-    fb = 42 if quick else 600
+    fb = 42 if quick else 400
     for di, d in enumerate(datasets):
         jobs.append(dict(base, phase="forced", datasets=[d], budget=max(6, fb // len(datasets)), tag=di))
         jobs.append(dict(base, phase="storm", datasets=[d], share=len(datasets), tag=di))
-    rounds = 32 if quick else 240
-    chunk = 8 if quick else 24
+    rounds = 32 if quick else 160
+    chunk = 8 if quick else 20
     for r0 in range(0, rounds, chunk):
         jobs.append(dict(base, phase="stress", datasets=datasets, r0=r0, r1=min(rounds, r0 + chunk), tag=r0))
     # longest jobs first
@@ -294,6 +292,12 @@ def run(ctx):
         base["broken"] = True
         apply_jobs(ctx, [dict(base, phase="storm", datasets=[d], share=len(datasets), tag="b%d" % di) for di, d in enumerate(datasets)], jt)
         lap("storm_after_broken_premise")
+
+
+def _worker_init():
+    """start of every worker process (nothing executed yet): fork its pristine solo server"""
+    conc.SOLO_SERVER[0] = None
+    conc.start_solo_server()
 
 
 def _any_job(job):
@@ -408,7 +412,7 @@ def merge_extra(dst, src):
 def apply_jobs(ctx, jobs, job_timeout, func=None):
     """run the jobs in forked workers; replay what they recorded onto the real context; a worker that died or hung
     is a failure of the property (the job is the replay); an exception inside the harness is a broken check"""
-    results = C.pmap(func or _job, jobs, nproc=min(8, len(jobs)), job_timeout=job_timeout)
+    results = C.pmap(func or _job, jobs, init=_worker_init, nproc=min(8, len(jobs)), job_timeout=job_timeout)
     values = []
     for job, res in zip(jobs, results):
         if isinstance(res, dict) and "__crashed__" in res:
@@ -460,7 +464,8 @@ def fixed_ops(spec):
         return ops
     ops = [{"op": "to_pandas"}, {"op": "to_pandas", "columns": spec["cols"][:2], "index": False}, {"op": "to_pandas", "columns": spec["cols"][-1:]},
            {"op": "slice", "i": 0, "j": 1}, {"op": "slice_only", "i": 1, "j": None}, {"op": "index", "i": -1}, {"op": "iter"},
-           {"op": "head", "n": 3}, {"op": "statistics"}, {"op": "count"}, {"op": "columns"}, {"op": "pickle"}]
+           {"op": "head", "n": 3}, {"op": "statistics"}, {"op": "count"}, {"op": "columns"}, {"op": "pickle"},
+           {"op": "slice_stats", "i": 0, "j": 1}]
     for c in sorted(spec["numeric"])[:2]:
         ops[2] = {"op": "to_pandas", "filters": [[c, ">=", spec["numeric"][c][1]]]}
         ops[9] = {"op": "count", "filters": [[c, "<", spec["numeric"][c][1]]]}
@@ -485,6 +490,7 @@ FIXED_OPS = [
     {"op": "to_pandas", "columns": ["i", "t"], "filters": [["t", ">=", {"dt": "2020-01-01T20:00"}]]},
     {"op": "count", "filters": [["t", "<", {"dt": "2020-01-02T03:00"}], ["s", ">=", "r2"]]},
     {"op": "slice", "i": 0, "j": 2, "filters": [["t", ">", {"dt": "2020-01-01T05:00"}]]},
+    {"op": "slice_stats", "i": 1, "j": None},
 ]
 
 
@@ -504,7 +510,9 @@ def _fp_job(job):
     for op in ops:
         pf = warm if warm is not None else ParquetFile(path)
         try:
-            want = with_alarm(120, conc.solo_result, path, op)
+            want = conc.solo_pristine(path, op, 120)
+            if isinstance(want, list) and want[:2] == ["EXC", "TimeoutError"] and "did not return within" in str(want[2]):
+                raise TimeoutError(want[2])
         except TimeoutError as e:
             out.append((op, ["EXC", "TimeoutError", "alone: " + str(e)], [("start", {})], 0, 0, None))
             break
@@ -525,7 +533,7 @@ def footprint_jobs(ctx, datasets, rng, quick):
     mk = lambda path, ph, ops: {"phase": "footprint", "path": path, "fp_phase": ph, "ops": ops, "quick": quick, "seed": ctx.seed}
     for di, (spec, path) in enumerate(datasets):
         ops = fixed_ops(spec)
-        ops += [gen_op(rng, spec) for _ in range(2 if quick else 10)]
+        ops += [gen_op(rng, spec) for _ in range(2 if quick else 6)]
         for i in range(0, len(ops), 3):
             jobs.append(mk(path, "fresh", ops[i:i + 3]))
             owner.append(di)
@@ -539,7 +547,7 @@ def footprint_jobs(ctx, datasets, rng, quick):
         # the same premise at bytecode granularity (every instruction of fastparquet frames) for the short operations,
         # in the thorough tier for all
         short = [o for o in ops if o["op"] in ("slice_only", "count", "statistics", "columns", "head")]
-        osel = (short[:3] + short[-2:]) if quick else ops
+        osel = (short[:3] + short[-2:]) if (quick or spec["kind"] == "file") else (short + [o for o in ops if o["op"] in ("slice", "pickle", "index")][:4] + ops[1:3])
         for i in range(0, len(osel), 3):
             jobs.append(mk(path, "fresh-opcode", osel[i:i + 3]))
             owner.append(di)
@@ -631,7 +639,7 @@ def conc_generic_key(k):
 
 
 def tree_model(ctx, pq, rng, quick):
-    n = 40 if quick else 300
+    n = 40 if quick else 150
     agree = 0
     total = 0
     first_bad = None
@@ -676,7 +684,10 @@ def tree_model(ctx, pq, rng, quick):
 def write_points(pf_path, op, root=None):
     from fastparquet import ParquetFile
     pf = ParquetFile(pf_path)
-    _, changes, nlines, _ = conc.trace_footprint(pf, op)
+    try:
+        _, changes, nlines, _ = with_alarm(150, conc.trace_footprint, pf, op)
+    except TimeoutError:
+        return 0, 0
     return len(changes) - 1, nlines
 
 
@@ -728,13 +739,14 @@ def forced_search(ctx, datasets, rng, quick, budget=None):
         # writers first: operations that write shared state, preempted right after each write
         cand = []
         for a in pool:
-            if a["op"] in ("to_pandas", "iter", "head", "slice", "count", "statistics", "pickle", "index", "slice_only"):
+            if a["op"] in ("to_pandas", "iter", "head", "slice", "count", "statistics", "pickle", "index", "slice_only", "slice_stats"):
                 cand.append(a)
         rng.shuffle(cand)
         for a in cand:
             if done >= per_ds:
                 break
             if okey(a) not in wp:
+                solo(a)               # (an operation that does not return alone ends the job here)
                 wp[okey(a)] = write_points(path, a)
             nw, nl = wp[okey(a)]
             b = rng.choice(pool)
@@ -767,7 +779,7 @@ def forced_search(ctx, datasets, rng, quick, budget=None):
 def multi_switch(ctx, datasets, rng, quick):
     """2-3 threads, random plans with many switches at line granularity (both directions)"""
     from fastparquet import ParquetFile
-    n = 10 if quick else 120
+    n = 10 if quick else 60
     for r in range(n):
         spec, path, solo = datasets[r % len(datasets)]
         nt = rng.choice([2, 2, 3])
@@ -830,8 +842,8 @@ def storm_search(ctx, datasets, rng, quick, share=None):
     """op b preempted at (nearly) every line, a complete op a in each gap.  a = the operations that write
     shared state on this tree (known from their footprint) first, then derived-handle operations."""
     from fastparquet import ParquetFile
-    npairs = 16 if quick else 96
-    max_calls = 500 if quick else 2500
+    npairs = 16 if quick else 48
+    max_calls = 500 if quick else 1500
     broken = bool(ctx.broken)
     if broken:
         npairs, max_calls = (24, 2500) if quick else (96, 8000)
@@ -852,14 +864,18 @@ def storm_search(ctx, datasets, rng, quick, share=None):
         pairs = [(writers[2], readers[0]), (writers[0], readers[3])] + pairs
         for pi, (a, b) in enumerate(pairs[:max(2, npairs // (share or len(datasets)))]):
             opc = OPC["ok"] and (pi % 2 == 0)
-            nl = conc.count_steps(ParquetFile(path), b, opcodes=opc)
+            wb = solo(b)          # (an operation that does not return alone ends the job here)
+            try:
+                nl = with_alarm(150, conc.count_steps, ParquetFile(path), b, None, opc)
+            except TimeoutError:
+                continue
             every = max(1, -(-nl // max_calls))
             check_storm(ctx, spec, path, solo, a, b, every, rng.randrange(every), opc)
 
 
 def stress(ctx, datasets, rng, quick, r0=0, r1=None):
     from fastparquet import ParquetFile
-    rounds = 32 if quick else 240
+    rounds = 32 if quick else 160
     for r in range(r0, rounds if r1 is None else r1):
         spec, path, solo = datasets[r % len(datasets)]
         nt = [2, 3, 4, 8, 16, 2, 6, 12][r % 8] if r >= 2 else [2, 16][r]
@@ -899,6 +915,13 @@ def stress(ctx, datasets, rng, quick, r0=0, r1=None):
             for op in l:
                 ctx.count("stress.op", op["op"])
         reported = False
+        if hung:
+            # slowness of 16 threads switching every microsecond on a loaded machine is not a hang: the same round with
+            # the default switch interval and a long deadline decides
+            e2, l2, hung = conc.stress_run(ParquetFile(path), lists, rng, switch=0.005, deadline_s=240.0)
+            if not hung:
+                ctx.count("inconclusive", "round exceeded its deadline, finishes with the default switch interval")
+                continue
         if hung:
             ctx.fail({"component": "shared-handle", "op": "round", "symptom": "hang", "mode": "stress"}, dict(case, hung=True),
                      "a free-running round of %d threads did not finish within %ds" % (nt, int(conc.STRESS_DEADLINE)))
@@ -952,7 +975,7 @@ def part_writers(ctx, pq, rng, quick):
     sequential ones; footprint on the shared object: no write at all (premise of C20_part_writer)"""
     import numpy as np
     from fastparquet import writer
-    rounds = 8 if quick else 50
+    rounds = 8 if quick else 30
     for r in range(rounds):
         spec = gen_dataset(rng, "single", small=True)
         spec["nthreads"] = [2, 4, 8, 16, 3][r % 5]
@@ -1022,7 +1045,12 @@ def part_round(spec, scratch, tag, rng, trace=False, reps=1):
         for pi, plan in enumerate(plans):
             a, b = rng.sample(range(nt), 2)
             shf = dict(shared, paths=paths("forced%d" % pi))
-            res, steps, dead = conc.forced_run(None, [{"op": "part", "i": a}, {"op": "part", "i": b}], [list(p) for p in plan], shared=shf, root=fmd)
+            res, steps, dead = conc.forced_run(None, [{"op": "part", "i": a}, {"op": "part", "i": b}], [list(p) for p in plan], shared=shf, root=fmd,
+                                               timeout=90.0)
+            if dead:
+                e_, l_, h_ = conc.stress_run(None, [[{"op": "part", "i": a}], [{"op": "part", "i": b}]], rng, shared=shf, switch=0.005, deadline_s=240.0)
+                if not h_:
+                    continue            # scheduler time-out on a loaded machine, the writers finish when free-running
             for t_, i in enumerate((a, b)):
                 g = conc.canon(res[t_])
                 if g != ref[i] or dead:
@@ -1032,6 +1060,8 @@ def part_round(spec, scratch, tag, rng, trace=False, reps=1):
     for t_ in range(trials):
         sh = shared if t_ == 0 else dict(shared, paths=paths("thr%d" % t_))
         early, late, hung = conc.stress_run(None, [[{"op": "part", "i": i}] for i in range(nt)], rng, shared=sh)
+        if hung:
+            early, late, hung = conc.stress_run(None, [[{"op": "part", "i": i}] for i in range(nt)], rng, shared=sh, switch=0.005, deadline_s=240.0)
         nb = len(bad)
         for i in range(nt):
             if late[i][0] != ref[i] or hung:
@@ -1049,6 +1079,7 @@ def replay(rep):
     """Re-execute a recorded case on the real code (real threads) and print what the property observes."""
     import random
     C.use_shadow()
+    conc.start_solo_server()        # pristine process for the solo results, forked before anything is executed here
     if rep.get("kind") == "no-failing-input-found":
         print(json.dumps(rep, indent=1)[:6000])
         return 1
